@@ -196,7 +196,7 @@ def batch_paths(rep, paths, n, nm, nk, tier, window):
     status = "ok"; why = ""
     def goal(g, ok, kind="structural"):
         nonlocal status, why
-        rec["goals"].append(dict(goal=g, verdict="unsat" if ok else "sat", solver_s=0.0, cases=1, solver_calls=0, kind=kind))
+        rec["goals"].append(dict(goal=g, verdict="unsat" if ok else "sat", solver_s=0.0, cases=1, solver_calls=0, kind=kind, nontrivial=(kind != "structural" or "path" in g and "=" in g)))
         if not ok and status != "violation": status = "violation"; why = g
     try:
         mod = linked(paths)
